@@ -317,7 +317,7 @@ func orderings(n int) [][]int {
 func runC09(r *ev.Run, thorough bool) int {
 	useVirtualClock()
 	shapes := c09Shapes(thorough)
-	maxPay := 24
+	maxPay := 16
 	if thorough {
 		maxPay = 64
 	}
@@ -359,9 +359,36 @@ func runC09(r *ev.Run, thorough bool) int {
 			r.Sample(c09Case{spec, len(s) / 2})
 		}
 	})
-	// large payloads
+	// medium payloads (fragment offsets cross the 23/24 and 255/256 header-width boundaries): every MTU,
+	// for shapes with each CRC mix (CRC-32 on the payload block leaves no slack in the size estimate)
 	var bigJobs []c09Case
-	for _, s := range []gen.Spec{shapes[0], shapes[len(shapes)/2], shapes[len(shapes)-1]} {
+	med := []int{40, 300}
+	if thorough {
+		med = []int{33, 40, 100, 280, 300, 600}
+	}
+	for si, s := range shapes {
+		if si%9 != 0 && !(s.PayCRC == 2 && si%4 == 1) && !thorough {
+			continue
+		}
+		for _, p := range med {
+			s2 := s
+			s2.PayLen = p
+			b := s2.Build()
+			ser, _ := gen.Ser(&b)
+			for m := 1; m <= len(ser)+8; m++ {
+				bigJobs = append(bigJobs, c09Case{s2, m})
+			}
+		}
+	}
+	// large payloads
+	bigShapes := []gen.Spec{shapes[0], shapes[len(shapes)/2], shapes[len(shapes)-1]}
+	for _, s := range shapes {
+		if s.PayCRC == 2 && s.PCRC == 2 {
+			bigShapes = append(bigShapes, s)
+			break
+		}
+	}
+	for _, s := range bigShapes {
 		for _, p := range big {
 			s2 := s
 			s2.PayLen = p
